@@ -244,7 +244,7 @@ def run(rep, tier):
     # (keyed, not wildcard), never on the value - an empty map is exactly the value in which every required key is missing
     mf = prog.fn(S + "::field::FieldValue::map_from_at")
     rep.saw(mf, len(mf.events))
-    vnull = [e for e in mf.calls_named(r"field::FieldType::validate$")]
+    vnull = [e for e in mf.calls_named(r"field::FieldType::validate$", r"field::FieldType::allows_null$")]
     tests = [e for e in mf.calls_named(r"BTreeMap::<K, V, A>::is_empty$|BTreeMap::<K, V>::is_empty$") if any(mf.dominates(e.block, v.block) and e.block != v.block for v in vnull)]
     bad = []
     for e in tests:
@@ -254,6 +254,19 @@ def run(rep, tier):
     rep.ob("R13.1", "required-keys-checked-by-type|map_from_at", bool(vnull) and bool(tests) and not bad,
            "the pass that rejects missing required keys is guarded by a test of the value being built, not of the declared type: `{}` for a keyed "
            "map with required keys is accepted on write and rejected on read", bad[0].where() if bad else mf.file + ":%d" % mf.line)
+
+    # a key of a keyed map may be absent only when its declared type is optional.  Deciding absence by validating a Null against
+    # the key's type lets every type that accepts an explicit null (Json) be absent too: accepted on write, `missing field`
+    # when the typed value is rebuilt.  Structurally: neither the validator nor the builder validates a literal Null.
+    for g in (prog.fn(S + "::field::validate_map_fields"), mf):
+        rep.saw(g, len(g.events))
+        lit = [e for e in g.calls_named(r"field::FieldType::validate(_inner)?$") if len(e.args) > 1 and any(
+            o[0] == "agg" and (o[1][2]["a"].get("def") or "").endswith("field::FieldValue") and o[1][2]["a"].get("v") == "Null"
+            for o in g.slice_back_op(e.args[1]))]
+        rep.ob("R13.1", "absent-key-needs-optional|%s" % g.path.rsplit("::", 1)[1], not lit,
+               "whether a declared key may be missing is decided by validating FieldValue::Null against its type (%d site(s)) instead of by the type being "
+               "Option: a required Json key (Json accepts null) may be left out of a nested struct and the document no longer converts back" % len(lit),
+               (lit[0].where() if lit else g.file + ":%d" % g.line))
 
     # ------------------------------------------------------------------ R13.5 the value walkers descend into the same composites
     rep.rule("R13.5", "the read-side walkers over (FieldType, FieldValue) - normalize_at and prune_undeclared_at - recurse into the same composites "
